@@ -258,6 +258,18 @@ def _check_case(case):
 GATE, LSCALE, LBIAS, TSCALE, DONE = 3, 5, 7, 11, 2
 
 
+def _def_bytes(sd):
+    """as_bytes() hands out a memoryview of a BytesIO that the SynthDef keeps;
+    copy it and release the view, otherwise a worker that is finalised while
+    such a definition is still alive dies noisily ("deallocated BytesIO
+    object has exported buffers")."""
+    view = sd.as_bytes()
+    data = bytes(view)
+    if isinstance(view, memoryview):
+        view.release()
+    return data
+
+
 def check_def(case, exp, spec, outcome):
     from sc3.synth.synthdef import SynthDef
     from sc3.synth.ugens.envgen import EnvGen
@@ -275,7 +287,7 @@ def check_def(case, exp, spec, outcome):
 
     try:
         sd = SynthDef('c19', graph)
-        data = bytes(sd.as_bytes())
+        data = _def_bytes(sd)
     except Exception as e:
         return [(raise_kind('def', e, case), exp, _exc(e),
                  'building a definition with EnvGen raised')]
@@ -350,7 +362,7 @@ def check_def_reuse(case, exp, spec, outcome, order):
 
     try:
         sd = SynthDef('c19', graph)
-        data = bytes(sd.as_bytes())
+        data = _def_bytes(sd)
     except Exception as e:
         return [(raise_kind('def', e, case), exp, _exc(e),
                  'building a definition with IEnvGen + EnvGen raised')]
